@@ -142,14 +142,13 @@ Definition subtree_unlock_ops : list op := [ORead [] MFlattenKeys [] []; OUnlock
 Definition memmap_then_subtree_unlock : list op := OMemmap [] 100 :: subtree_unlock_ops.
 
 (* repaired: memmap_() builds the lock graph (every node flagged, the nested node registered under the root); the nested node
-   cannot be unlocked alone — the call is REFUSED and the lock state is what it was (the flags, the parents; _is_memmap of the
-   node that tried is cleared by _propagate_unlock, a quirk of the library that the model has) — the structural write is
-   refused too, and the root's memoised flatten_keys is a sound hit *)
+   cannot be unlocked alone — the call is REFUSED and the lock state is what it was (the flags, the parents, and — D68 repaired —
+   _is_memmap of the node that tried) — the structural write is refused too, and the root's memoised flatten_keys is a sound hit *)
 Theorem memmap_subtree_unlock_refused :
   let s1 := fst (step repo false w_plain (OMemmap [] 100)) in
   lock_graph s1 = [([], Some true, [], true); (["n"], Some true, [[]], true)]
   /\ snd (step repo false s1 (OUnlock ["n"])) = RaisedLock
-  /\ lock_graph (fst (step repo false s1 (OUnlock ["n"]))) = [([], Some true, [], true); (["n"], Some true, [[]], false)]
+  /\ lock_graph (fst (step repo false s1 (OUnlock ["n"]))) = lock_graph s1
   /\ outcomes repo false w_plain memmap_then_subtree_unlock = [Done; Done; RaisedLock; RaisedLock; Done]
   /\ exists v n, snd (read false (run repo false w_plain memmap_then_subtree_unlock) [] MFlattenKeys [] []) = Some (Hit, v, None)
                  /\ find_node (run repo false w_plain memmap_then_subtree_unlock) [] = Some n
@@ -158,6 +157,16 @@ Proof.
   cbv zeta. split; [reflexivity|split; [reflexivity|split; [reflexivity|split; [reflexivity|]]]].
   eexists; eexists; split; [vm_compute; reflexivity|split; vm_compute; reflexivity].
 Qed.
+
+(* the library before the repair of D68 (everything else repaired): the refused unlock_ has cleared _is_memmap of the node that
+   tried, and of that node only *)
+Definition before_D68 : fixes :=
+  {| fix_rebind := true; fix_meta := true; fix_memmap := true; fix_lockgraph := true; fix_lockflag := true; fix_unlockflags := false; fix_attach := true |}.
+Example unrepaired_refused_unlock_clears_memmap :
+  let s1 := fst (step before_D68 false w_plain (OMemmap [] 100)) in
+  snd (step before_D68 false s1 (OUnlock ["n"])) = RaisedLock
+  /\ lock_graph (fst (step before_D68 false s1 (OUnlock ["n"]))) = [([], Some true, [], true); (["n"], Some true, [[]], false)].
+Proof. split; reflexivity. Qed.
 
 (* the library before the repair of D7: memmap_() flags the nodes and registers nothing, the nested node unlocks alone, is
    written structurally, and the root answers from its memoised flatten_keys — a stale hit (what D62 recorded) *)
@@ -170,6 +179,32 @@ Proof. split; [reflexivity|split; [reflexivity|stale]]. Qed.
 (* with the lock graph built by lock_ the same unlock is refused as well *)
 Example subtree_unlock_refused_under_lock_ : outcomes repo false w0 [OUnlock ["n"]] = [RaisedLock].
 Proof. reflexivity. Qed.
+
+(* ---------------------------------------------------------------- D69 — repaired *)
+(* td.memmap_(); td.flatten_keys(); td.make_memmap_from_tensor(("mn", "x"), t); td.flatten_keys(); td["mn"].set("y", ...) *)
+Definition nested_make_memmap_ops : list op :=
+  [ORead [] MFlattenKeys [] []; OMakeMemmapNested ["mn"] 50 "x" mm_leaf; ORead [] MFlattenKeys [] []; OSet ["mn"; "y"] (lfT 41 41)].
+(* repaired: the nested tensordict bound under the locked root is flagged, registered under the root and memory-mapped; it is
+   neither written structurally nor unlocked alone, and the root's memoised flatten_keys is a sound hit *)
+Theorem nested_make_memmap_attached_locked :
+  lock_graph (run repo false w_mm [OMakeMemmapNested ["mn"] 50 "x" mm_leaf])
+  = [([], Some true, [], true); (["n"], Some true, [[]], true); (["mn"], Some true, [[]], true)]
+  /\ outcomes repo false w_mm (nested_make_memmap_ops ++ [OUnlock ["mn"]]) = [Done; Done; Done; RaisedLock; RaisedLock]
+  /\ exists v n, snd (read false (run repo false w_mm nested_make_memmap_ops) [] MFlattenKeys [] []) = Some (Hit, v, None)
+                 /\ find_node (run repo false w_mm nested_make_memmap_ops) [] = Some n
+                 /\ v = fresh (run repo false w_mm nested_make_memmap_ops) n MFlattenKeys [] [].
+Proof.
+  split; [reflexivity|split; [reflexivity|]]. eexists; eexists; split; [vm_compute; reflexivity|split; vm_compute; reflexivity].
+Qed.
+(* the library before the repair of D69 (everything else repaired): the new node is not locked, the write is accepted, stale hit *)
+Definition before_D69 : fixes :=
+  {| fix_rebind := true; fix_meta := true; fix_memmap := true; fix_lockgraph := true; fix_lockflag := true; fix_unlockflags := true; fix_attach := false |}.
+Theorem unrepaired_nested_make_memmap :
+  lock_graph (run before_D69 false w_mm [OMakeMemmapNested ["mn"] 50 "x" mm_leaf])
+  = [([], Some true, [], true); (["n"], Some true, [[]], true); (["mn"], Some false, [], false)]
+  /\ outcomes before_D69 false w_mm nested_make_memmap_ops = [Done; Done; Done; Done]
+  /\ stale_hit (run before_D69 false w_mm nested_make_memmap_ops) [] MFlattenKeys [] [].
+Proof. split; [reflexivity|split; [reflexivity|stale]]. Qed.
 
 (* D65: a lazy stack holds stacked COPIES in its memoised flatten_keys: stale after a plain in-place write through a member *)
 Theorem refuted_lazy_materialised :
